@@ -89,6 +89,10 @@ def random_program(rng, *, max_cleanups=4, kinds=RAISE_KINDS, p_raise=0.35, feat
             body.append(["cleanup", "c%d" % n_cleanups[0], cleanup_body(depth + 1)] + (["kw"] if rng.random() < 0.2 else []))
         if "patch" in feats and rng.random() < 0.2:
             body.append(patch_action(rng, p))
+        if "fixture" in feats and rng.random() < 0.12:
+            # a fixture used from inside a cleanup: its clean-up and its details are registered while the
+            # cleanups are already running
+            body.append(fixture_action(rng, tok, False, False))
         if "expect" in feats and rng.random() < 0.15:
             body.append(expect_action(rng, tok, feats))
         if rng.random() < p_raise:
